@@ -1,8 +1,31 @@
 mod c14;
+mod desugar;
+mod dgen;
+mod front;
+mod graph;
+mod ir;
+mod shrink;
 
 fn main() {
     let args: Vec<String> = std::env::args().skip(1).collect();
     let id = args.first().cloned().unwrap_or_default();
+    if id == "probe" {
+        // debugging aid: vc-loop probe FILE...  -> diagnostics of the in-process pipeline
+        for f in &args[1..] {
+            let src = std::fs::read_to_string(f).expect("read");
+            let r = std::thread::scope(|s| s.spawn(|| front::analyze(&src)).join().unwrap());
+            match r {
+                None => println!("{f}: does not parse"),
+                Some(ds) => {
+                    println!("{f}: {} diagnostics", ds.len());
+                    for d in ds {
+                        println!("  {} {} {} @{:?}", if d.is_error { "E" } else { "W" }, d.code, d.message, d.loop_at);
+                    }
+                }
+            }
+        }
+        return;
+    }
     vcore::quiet_panics();
     let ctx = vcore::Ctx::new(&id, &args[1.min(args.len())..]);
     match id.as_str() {
